@@ -4,7 +4,7 @@
 
 struct Stats {   // process-wide evidence counters (relaxed)
     std::atomic<long long> q_released{0}, q_reserved{0}, seq_dups_rejected{0}, seq_accepted{0}, prio_gated{0}, prio_pairs_checked{0}, resv_tuples{0}, resv_competitor_items{0},
-        jq_tuples{0}, jk_tuples{0}, jk_dup_rejected{0}, jk_unmatched{0}, lim_inline_decs{0}, lim_ext_decs{0}, lim_at_threshold{0}, lim_rejected_puts{0}, lim_delivered{0},
+        jq_tuples{0}, jk_tuples{0}, jk_dup_rejected{0}, jk_unmatched{0}, lim_inline_decs{0}, lim_ext_decs{0}, lim_at_threshold{0}, lim_rejected_puts{0}, lim_delivered{0}, limb_delivered{0}, limb_batches{0}, limb_multi_batches{0}, limb_at_threshold{0}, limb_inline_batches{0},
         ow_late{0}, ow_values{0}, wo_rejected{0}, bc_msgs{0}, sp_msgs{0}, ix_msgs{0}, ring_ops{0}, ring_reserved_grows{0}, ring_wraps{0}, ring_get_while_reserved_refused{0}, task_puts{0};
 };
 static Stats ST;
